@@ -46,6 +46,8 @@ enum Unit {
     Fan { w: usize },
     /// 300 simultaneously live intervals (stack frames of several KiB in the JIT)
     Huge,
+    /// root-only programs in which the op's operands are used again afterwards
+    Reuse(B),
     Transform(bool),
 }
 
@@ -98,6 +100,9 @@ fn units(tier: Tier) -> Vec<Unit> {
         v.push(Unit::Fan { w });
     }
     v.push(Unit::Huge);
+    for b in refsem::BINARY {
+        v.push(Unit::Reuse(b));
+    }
     v
 }
 
@@ -291,6 +296,85 @@ fn binary_unit<F: Backend>(cx: &mut Cx, tier: Tier, op: B) {
                 let (l, r) = if form == 0 { (a[0], c) } else { (c, a[0]) };
                 if skip(l, r) { None } else { Some(bin32(op, l, r)) }
             });
+        }
+    }
+}
+
+/// Root-only programs (the register allocation a user gets: exporting every
+/// node keeps all values live and changes which registers are shared): the
+/// interval of the single output must enclose the point evaluator's value at
+/// corners, edge midpoints and the centre of the box
+fn root_prog<F: Backend>(cx: &mut Cx, p: &Prog, boxes: &[Vec<(f32, f32)>]) {
+    let mut ctx = Context::new();
+    let roots = p.build(&mut ctx);
+    let flat = Flat::from_ctx(&ctx, &roots);
+    let Ok(f) = evalkit::build::<F>(&ctx, &roots) else { return };
+    let desc = || json!({"program": p.describe(), "context_graph": flat.describe(), "backend": F::NAME, "all_nodes_exported": false});
+    let Ok(tape) = guard(|| f.interval_tape(Default::default())) else { return };
+    let Ok(ptape) = guard(|| f.point_tape(Default::default())) else { return };
+    let mut ev = F::new_interval_eval();
+    let mut pe = F::new_point_eval();
+    let (mut vals, mut amb) = (vec![], vec![]);
+    for bx in boxes {
+        let mut args = vec![Interval::new(0.0, 0.0); f.vars().len()];
+        let mut slots = vec![usize::MAX; f.vars().len()];
+        for (v, i) in f.vars().iter() {
+            if let Some(pp) = flat.vars.iter().position(|u| *u == v) {
+                let b = bx.get(pp).copied().unwrap_or((0.25, 0.75));
+                args[i] = Interval::new(b.0, b.1);
+                slots[i] = pp;
+            }
+        }
+        cx.add("evals", 1);
+        let out = match guard(|| ev.eval(&tape, &args).map(|(o, _)| o[0])) {
+            Ok(Ok(o)) => o,
+            Ok(Err(_)) => continue,
+            Err(e) => {
+                cx.crash(format!("{}-interval crash {}", F::NAME, panic_site(&e)), desc(), e);
+                ev = F::new_interval_eval();
+                continue;
+            }
+        };
+        if out.has_nan() {
+            continue;
+        }
+        cx.add("nontrivial", 1);
+        // sample points: every combination of {lower, mid, upper} per variable
+        let nv = args.len();
+        for code in 0..3usize.pow(nv as u32) {
+            let pt: Vec<f32> = (0..nv)
+                .map(|i| {
+                    let a = args[i];
+                    match (code / 3usize.pow(i as u32)) % 3 {
+                        0 => a.lower(),
+                        1 => a.lower() / 2.0 + a.upper() / 2.0,
+                        _ => a.upper(),
+                    }
+                })
+                .collect();
+            let Ok(Ok(v)) = guard(|| pe.eval(&ptape, &pt).map(|(o, _)| o[0])) else { continue };
+            // the property's exclusions, found with the reference evaluation of
+            // the graph at this point: NaN values, atan2(0, 0) anywhere in the
+            // program, and results downstream of a min/max of two zeros of
+            // different sign
+            let by_flat: Vec<f32> = (0..flat.vars.len()).map(|k| slots.iter().position(|s| *s == k).map(|i| pt[i]).unwrap_or(0.0)).collect();
+            flat.eval_all(&by_flat, &mut vals, &mut amb);
+            let excluded = v.is_nan()
+                || amb[flat.roots[0]]
+                || vals.iter().any(|x| x.is_nan())
+                || flat.ops.iter().any(|o| matches!(*o, FOp::Bin(B::Atan, a, b) if vals[a] == 0.0 && vals[b] == 0.0));
+            if excluded {
+                continue;
+            }
+            cx.add("point_checks", 1);
+            if !contains(&out, v, ULPS) {
+                cx.violation(
+                    format!("{}-interval result of a root-only program does not enclose the point value (root op {})", F::NAME, match flat.ops[flat.roots[0]] { FOp::Bin(o, ..) => format!("{o:?}"), FOp::Un(o, _) => format!("{o:?}"), _ => "leaf".into() }),
+                    desc(),
+                    format!("box {bx:?} -> [{:?}, {:?}], but at {pt:?} the point evaluator gives {v:?}", out.lower(), out.upper()),
+                );
+                return;
+            }
         }
     }
 }
@@ -570,12 +654,13 @@ impl Check for C03 {
             Unit::Dag { n, .. } => format!("dag n={n}"),
             Unit::Fan { w } => format!("fan w={w}"),
             Unit::Huge => "huge".into(),
+            Unit::Reuse(b) => format!("reuse {b:?}"),
             Unit::Transform(j) => format!("{} transform", if *j { "jit" } else { "vm" }),
         }
     }
     fn meta(&self, tier: Tier) -> Meta {
         Meta {
-            rule: "case = (program, box); (a) every opcode x operand form {reg, reg/reg, same-reg, reg/imm and imm/reg with 12 immediates} x every interval (pair) over the finite endpoint alphabet E (+op-specific boundary endpoints: quadrant boundaries, +-1+-ulp, exp/ln limits), sample points per interval = endpoints, midpoint, neighbours of the endpoints and every alphabet value inside, all combinations for binary ops; (b) fan families of width w = 1..16 (thorough 24): w values live across atan2 / mod / sin / exp call-outs, consumed in three orders, all nodes exported, 225 boxes; one huge program with 300 simultaneously live intervals; every DAG up to the node bound over one representative op per interval-behaviour class {add,sub,mul,div,recip,sqrt,square,abs,sin,atan2,floor,mod,min,and,compare,not} with all nodes exported, boxes from a per-axis endpoint grid, points = corners/edge midpoints/centre, local obligation at every node on the intermediate intervals that actually arise (operand values clamped into the evaluator's operand intervals); (c) Shape API with 10 matrices (exact dyadic ones checked to 4 ulp; 30-degree rotation and four projective ones - bottom row (0,0,.25,2), (0,0,.25,1), (.125,-.0625,.25,1), perspective x rotation x scale - to 1e-5 relative); VM and JIT; tolerance 4 ulp; excluded: NaN interval, NaN value, atan2(0,0); non-trivial = the returned interval is not the NaN interval".into(),
+            rule: "case = (program, box); (a) every opcode x operand form {reg, reg/reg, same-reg, reg/imm and imm/reg with 12 immediates} x every interval (pair) over the finite endpoint alphabet E (+op-specific boundary endpoints: quadrant boundaries, +-1+-ulp, exp/ln limits), sample points per interval = endpoints, midpoint, neighbours of the endpoints and every alphabet value inside, all combinations for binary ops; (b) fan families of width w = 1..16 (thorough 24): w values live across atan2 / mod / sin / exp call-outs, consumed in three orders, all nodes exported, 225 boxes; one huge program with 300 simultaneously live intervals; for every binary opcode 11 ROOT-ONLY programs in which the op's operands are used again afterwards (register-sharing patterns; exporting all nodes would keep every value live), root interval vs the point evaluator at 3^n points of 784 boxes; every DAG up to the node bound over one representative op per interval-behaviour class {add,sub,mul,div,recip,sqrt,square,abs,sin,atan2,floor,mod,min,and,compare,not} with all nodes exported, boxes from a per-axis endpoint grid, points = corners/edge midpoints/centre, local obligation at every node on the intermediate intervals that actually arise (operand values clamped into the evaluator's operand intervals); (c) Shape API with 10 matrices (exact dyadic ones checked to 4 ulp; 30-degree rotation and four projective ones - bottom row (0,0,.25,2), (0,0,.25,1), (.125,-.0625,.25,1), perspective x rotation x scale - to 1e-5 relative); VM and JIT; tolerance 4 ulp; excluded: NaN interval, NaN value, atan2(0,0); non-trivial = the returned interval is not the NaN interval".into(),
             bounds: match tier {
                 Tier::Quick => "two-variable forms over 19 endpoints (190 intervals, 36100 pairs); DAG nodes <= 2".into(),
                 Tier::Thorough => "two-variable forms over the full endpoint alphabet; DAG nodes <= 3 (thinned box grid at n = 3)".into(),
@@ -600,6 +685,18 @@ impl Check for C03 {
             Unit::Binary(b, true) => binary_unit::<JitFunction>(cx, tier, b),
             Unit::Transform(false) => transform_unit::<VmFunction>(cx, tier),
             Unit::Transform(true) => transform_unit::<JitFunction>(cx, tier),
+            Unit::Reuse(b) => {
+                let e = [-2.0f32, -0.5, -0.0, 0.0, 0.25, 1.0, 3.0];
+                let iv = alpha::intervals(&e);
+                let boxes: Vec<Vec<(f32, f32)>> = iv.iter().flat_map(|a| iv.iter().map(move |c| vec![*a, *c])).collect();
+                for (k, p) in crate::prog::reuse_patterns(b).iter().enumerate() {
+                    if cx.case(k as u64) {
+                        cx.add("cases", 1);
+                        root_prog::<VmFunction>(cx, p, &boxes);
+                        root_prog::<JitFunction>(cx, p, &boxes);
+                    }
+                }
+            }
             Unit::Huge => {
                 let p = crate::prog::huge_prog(300, false);
                 let boxes: Vec<Vec<(f32, f32)>> = vec![vec![(-1.0, -0.5)], vec![(0.25, 0.25)], vec![(-2.0, 3.0)], vec![(0.0, 1e-3)]];
